@@ -248,7 +248,7 @@ fn continue_after_violation(gots: &mut Vec<String>, wants: &mut Vec<String>, got
 
 fn per_builtin(tier: &str) -> u64 {
     match tier {
-        "thorough" => 20000,
+        "thorough" => 60000,
         _ => 300,
     }
 }
